@@ -118,6 +118,16 @@ func probeSuite(c Cfg) []Req {
 			}
 		}
 	}
+	// preflight-only request headers on requests that are NOT preflights (a browser
+	// never does this; other clients may)
+	qs = append(qs, Req{Method: "GET", H: []HV{{hACRPN, []string{"true"}}}})
+	for _, o := range origins[:min(2, len(origins))] {
+		qs = append(qs,
+			Req{Method: "GET", H: []HV{{hOrigin, []string{o}}, {hACRPN, []string{"true"}}}},
+			Req{Method: "POST", H: []HV{{hOrigin, []string{o}}, {hACRM, []string{"PUT"}}, {hACRH, []string{"x-foo"}}, {hACRPN, []string{"true"}}}},
+			Req{Method: "OPTIONS", H: []HV{{hOrigin, []string{o}}, {hACRPN, []string{"true"}}, {hACRH, []string{"x-foo"}}}},
+		)
+	}
 	if len(match) > 0 {
 		o := match[0]
 		// multi-valued Origin / ACRM, as a non-browser client may send
